@@ -147,7 +147,9 @@ class UniverseInput(CellModifierInput):
             if cell._universe._tree_value.value == 0:
                 # access ValueNode directly to avoid override with _tree_value
                 cell._universe._old_number._value = None
-            ret.append(cell._universe._old_number)
+            ret.append(
+                self._without_cell_comments(cell._universe, cell._universe._old_number)
+            )
         return ret
 
     def merge(self, other):
